@@ -42,6 +42,11 @@ def _strike(point, task):
         os._exit(1)
     if mode == "kill":
         os.kill(os.getpid(), signal.SIGKILL)
+    if mode in ("term_helper_first", "term_helper_second"):
+        me = os.getpid()
+        helpers = sorted(p for p in _children_of(os.getppid()) if p != me)[:2]
+        os.kill(helpers[0] if mode == "term_helper_first" else helpers[1], signal.SIGTERM)
+        time.sleep(0.3)
     if mode in ("kill_helper_first", "kill_helper_second"):
         # helpers are the executor's other children that are not workers: [shm server, data server] in start order
         me = os.getpid()
